@@ -1328,7 +1328,8 @@ func main() {
 			"Oracle 1: each subscription of roprometheus.PipeN(…) observes the trace of the same subscription of ro.PipeN(…) (values, order, terminal, panics), the same context markers in every callback (subscription value, per-item value by position in the source subscription, mid/upstream values), and the source sees the same number of subscriptions, the same subscription value, the same number of live subscriptions after the outcome / after Unsubscribe and the same teardown counts. " +
 			"Oracle 2 (licence on): metrics written out of the returned collector: subscriptions == Subscribe calls; notification_in == lag observations == values counted by ro.Tap directly below the source of the plain chain; notification_out == Next callbacks of the recorders; processing-time observations of operator i == values counted by ro.Tap directly below operator i; exactly the five metric families, one series each plus one per operator. Licence off: Collect yields nothing. " +
 			"A shortfall of processing-time observations that equals the number of values whose context does not descend from the upstream Next context gets its own finding class. An anomaly is keyed Pipe<N> when the same chain sent through a neighbouring arity (identity operator appended; first two operators composed for N=24) does not show it, PipeN otherwise. " +
-			"Stand-alone IncCounterOnNext/Error/Complete/Subscription and ObserveNextLag (summary and histogram), alone and combined at random positions: trace, contexts and release equal the chain without them; exported value == ro.Tap / ro.TapOnSubscribe count at the same position; 0 without licence. Non-trivial: the plain pipeline delivers at least one value (stand-alone: at least one callback).",
+			"Stand-alone IncCounterOnNext/Error/Complete/Subscription and ObserveNextLag (summary and histogram), alone and combined at random positions: trace, contexts and release equal the chain without them; exported value == ro.Tap / ro.TapOnSubscribe count at the same position; 0 without licence. Non-trivial: the plain pipeline delivers at least one value (stand-alone: at least one callback). " +
+			"Also toggle: one Pipe2 value subscribed in phases with the licence switched between them (off,on / on,off / …): every phase sees the plain trace, the counters hold exactly what the 'on' phases contributed, nothing is exposed while off.",
 		Assume: []string{
 			"catalogue operators used in chains are deterministic functions of the script (time-driven, hand-off, blocking, hot entries, GroupBy→MergeAll and ThrowOnContextCancel are left out)",
 			"concurrent cases are judged only when sequential and concurrent subscriptions of the PLAIN pipeline agree (else inconclusive)",
